@@ -46,8 +46,8 @@ cancel it - the rounding error is that of the terms, not of the remainder)
   modal_sum sum over the keys of each *_modes variant == its non-modal counterpart, all six components:
             <= 1e-12 * sum_k S_k (measured 6e-16).
   zero_obl  obliquity variants called with obliquity = 0.0 equal the no-obliquity variants ("exactly"): non-modal
-            tuple, every shared mode; modes the no-obliquity variant does not have are 0 (use_static=False) or the
-            static term alone (use_static=True): <= 1e-14 sc (measured: bit-identical).
+            tuple, every shared mode; modes the no-obliquity variant does not have are 0 (with use_static=True: 0 or
+            the static term alone, see KF-C14-static-in-every-mode): <= 1e-14 sc (measured: bit-identical).
   Two-scale ratio tests (no fixed tolerance decides; D(lambda) = max-norm of the difference over 3..6 points and
   all six components, in units of sc; evaluated at lambda and lambda/2; D1 <= 1e-11 is "below floor" = held):
   med_gen   medium-obliquity vs general-obliquity variants, per mode of the modal pair, the static parts, and the
@@ -113,7 +113,7 @@ LEVEL_NOTE = ('Trusts numpy double arithmetic and the finite-difference error bu
               'dispatchers are exercised in 8 fixed cases (quick) / 10% of generated cases (thorough) and compared with the '
               'un-jitted result. "To second order in obliquity" is decided with e scaled jointly with the obliquity (the '
               'documented total-degree-3 truncation); at fixed e>0 the medium variants differ from the general ones by e^3*obl.')
-CASES = {'quick': 4000, 'thorough': 400000}
+CASES = {'quick': 4000, 'thorough': 1200000}
 SHARDS = {'quick': 8, 'thorough': 16}
 G_SI = 6.6743e-11  # only used for the tolerance scale; the value under test comes from TidalPy.constants
 
@@ -138,7 +138,7 @@ RULE = ('Hypothesis draws kind (derivs 60% | zero_obl | med_gen | sync | low_e),
         '1.5 | 2), e in {0} u [1e-6,0.4], obliquity in {0} u [1e-6,1.6] (smaller non-zero values only produce subnormal e^3 terms), host mass 10^[22,31] kg, a 10^[7.5,11] m, R '
         '10^[5,8] m, use_static, call path (py arrays | py scalars | jit); two-scale kinds draw obliquity in [0.02,0.2], kappa = e/obl '
         'in {0} u [0.2,2], e in [0.01,0.2]. Non-trivial = e > 0.01 and spin != n and obliquity > 0.01 where the kind/family takes '
-        'them (sync: e > 0.01 only; two-scale kinds: always); distinct = distinct argument dict.')
+        'them (sync: e > 0.01 only; low_e: obliquity > 0.01; med_gen: always); distinct = distinct argument dict.')
 ASSUMPTIONS = ['finite differences: 6th-order central, h=5e-3, truncation <= 1.4e-14*S, rounding <= 3e-11*S, tolerance 1e-9*S',
                'Laplace identity tolerance 2e-12 relative to the sum of the magnitudes of its four terms (measured 6.8e-14)',
                'modal sum 1e-12 relative (measured 6e-16); zero-obliquity equality 1e-14*scale (measured bit-identical)',
@@ -292,33 +292,59 @@ def in_domain(case):
         return False
 
 
-def _uniform(lo, hi):
-    """uniform on [lo, hi] by construction: st.floats and wide st.integers are deliberately biased towards 0, boundaries
-    and small magnitudes (with st.floats 70% of the eccentricities were <= 0.01); bounded integers of <= 24 bits are
-    drawn uniformly, two of them give 48 bits of resolution."""
-    return st.tuples(st.integers(0, 2 ** 24 - 1), st.integers(0, 2 ** 24 - 1)).map(
-        lambda kk: lo + (hi - lo) * ((kk[0] + kk[1] / 2.0 ** 24) / 2.0 ** 24))
+class _Spread:
+    """Uniform variates derived deterministically (blake2b) from the values Hypothesis drew for a case.
+    Why: st.floats / st.integers and the engine's example mutation are deliberately biased towards 0, boundaries, tiny
+    magnitudes and repeated values - with plain st.floats 70% of the generated eccentricities were <= 0.01 and the
+    non-trivial rule (e > 0.01, obliquity > 0.01) was met by a third of the cases.  Hypothesis therefore draws the discrete
+    structure of a case (kind, family, spin class, flags, which parameters sit on a special value) plus salts, and the
+    continuous coordinates are a hash of exactly those draws: every random choice still comes from the (seeded)
+    strategy, the case written to a replay file holds the final numbers."""
+
+    def __init__(self, drawn):
+        import hashlib
+        import json
+        self._h = hashlib.blake2b(json.dumps(drawn, sort_keys=True, default=repr).encode(), digest_size=32).digest()
+        self._i = 0
+
+    def u(self, lo=0.0, hi=1.0):
+        import hashlib
+        self._i += 1
+        d = hashlib.blake2b(self._h + self._i.to_bytes(4, 'little'), digest_size=8).digest()
+        return lo + (hi - lo) * (int.from_bytes(d, 'little') >> 11) / float(1 << 53)
+
+
+def _fill(d):
+    r = _Spread(d)
+    pts = []
+    for j in range(d['npts']):
+        if d['pole'] and j == 0:
+            th = r.u(COLAT_MIN, 0.15) if r.u() < 0.5 else r.u(math.pi - 0.15, math.pi - COLAT_MIN)
+        else:
+            th = r.u(COLAT_MIN, math.pi - COLAT_MIN)
+        pts.append([th, r.u(0.0, 2 * math.pi)])
+    e = {'u': r.u(E_MIN, 0.4), 'small': r.u(E_MIN, 0.02), 'zero': 0.0}[d['e_kind']]
+    ob = {'u': r.u(E_MIN, 1.6), 'mid': r.u(E_MIN, 0.3), 'small': r.u(E_MIN, 0.01), 'zero': 0.0}[d['obl_kind']]
+    return {'kind': d['kind'], 'family': d['family'], 'only': None, 'pts': pts, 'tau': r.u(0.0, 3.0), 'logn': r.u(-7.0, -3.5),
+            'spin': d['spin'], 'ratio': r.u(-3.0, 3.0), 'e': e, 'obl': ob, 'logM': r.u(22.0, 31.0), 'loga': r.u(7.5, 11.0),
+            'logR': r.u(5.0, 8.0), 'use_static': d['use_static'], 'path': d['path'], 'obl2': r.u(0.02, 0.2),
+            'kappa': 0.0 if d['pure_obliquity'] else r.u(0.2, 2.0), 'e2': r.u(0.01, 0.2)}
 
 
 def strategy(tier):
-    pt = st.tuples(_uniform(COLAT_MIN, math.pi - COLAT_MIN), _uniform(0.0, 2 * math.pi)).map(list)
-    pole = st.tuples(st.one_of(_uniform(COLAT_MIN, 0.15), _uniform(math.pi - 0.15, math.pi - COLAT_MIN)),
-                     _uniform(0.0, 2 * math.pi)).map(list)
     kinds = ['derivs'] * 12 + ['zero_obl'] * 2 + ['med_gen'] * 2 + ['sync'] * 2 + ['low_e'] * 2
     fams = ['simple', 'no_obl', 'no_obl', 'med_obl', 'med_obl', 'gen_obl', 'gen_obl', 'low_e', 'low_e']
     paths = ['py'] * 17 + ['py_scalar'] * 3 if tier == 'quick' else ['py'] * 15 + ['py_scalar'] * 3 + ['jit'] * 2
     return st.fixed_dictionaries({
-        'kind': st.sampled_from(kinds), 'family': st.sampled_from(fams), 'only': st.none(),
-        'pts': st.lists(st.one_of(pt, pt, pt, pole), min_size=1, max_size=3),
-        'tau': _uniform(0.0, 3.0), 'logn': _uniform(-7.0, -3.5),
-        'spin': st.sampled_from(['ratio'] * 7 + SPINS[1:]), 'ratio': _uniform(-3.0, 3.0),
-        'e': st.one_of(*([_uniform(E_MIN, 0.4)] * 8 + [_uniform(E_MIN, 0.02), st.just(0.0)])),
-        'obl': st.one_of(*([_uniform(E_MIN, 1.6)] * 6 + [_uniform(E_MIN, 0.3)] * 2 + [_uniform(E_MIN, 0.01), st.just(0.0)])),
-        'logM': _uniform(22.0, 31.0), 'loga': _uniform(7.5, 11.0), 'logR': _uniform(5.0, 8.0),
+        'kind': st.sampled_from(kinds), 'family': st.sampled_from(fams), 'npts': st.integers(1, 3),
+        'pole': st.sampled_from([False, False, False, True]),
+        'spin': st.sampled_from(['ratio'] * 7 + SPINS[1:]),
+        'e_kind': st.sampled_from(['u'] * 8 + ['small', 'zero']),
+        'obl_kind': st.sampled_from(['u'] * 6 + ['mid'] * 2 + ['small', 'zero']),
         'use_static': st.booleans(), 'path': st.sampled_from(paths),
-        'obl2': _uniform(0.02, 0.2), 'kappa': st.one_of(st.just(0.0), _uniform(0.2, 2.0), _uniform(0.2, 2.0), _uniform(0.2, 2.0)),
-        'e2': _uniform(0.01, 0.2),
-    })
+        'pure_obliquity': st.sampled_from([True, False, False, False]),
+        'salt': st.tuples(st.integers(0, 2 ** 48), st.floats(0.0, 1.0), st.integers(0, 1023)),
+    }).map(_fill)
 
 
 def _base(**kw):
@@ -513,11 +539,15 @@ def _eval_zero_obl(case, c, P, path):
                 c.check(d <= TOL_EXACT, {'clause': 'zero_obl', 'impl': impl, 'mode': k},
                         '%s[%s](obliquity=0) - nsr_modes[%s] = %.3e scale' % (impl, k, k, d))
             else:
-                ref = stat if stat is not None else 0.0
-                d = _norm(T - ref, sc)
+                # a mode the no-obliquity variant does not have must carry nothing at zero obliquity; with use_static=True
+                # it may (known finding KF-C14-static-in-every-mode) or may not carry a copy of the static term: both
+                # are accepted HERE, the replication itself is judged by the modal_sum clause.
+                d = _norm(T, sc)
+                if stat is not None:
+                    d = min(d, _norm(T - stat, sc))
                 c.check(d <= TOL_EXACT, {'clause': 'zero_obl', 'impl': impl, 'mode': k, 'kind': 'extra_mode_nonzero'},
-                        '%s[%s](obliquity=0) should be %s, differs by %.3e scale'
-                        % (impl, k, 'the static term' if stat is not None else 'zero', d))
+                        '%s[%s](obliquity=0) should be zero%s, differs by %.3e scale'
+                        % (impl, k, ' (or the static term alone)' if stat is not None else '', d))
 
 
 def _two_scale(c, name, sig, d1, d2, need, bound, lam_desc):
@@ -615,7 +645,7 @@ def evaluate(case):
     elif kind == 'sync':
         nontrivial = float(case['e2']) > 0.01
     elif kind == 'low_e':
-        nontrivial = P['ob'] > 0.01 and P['ratio'] != 1.0
+        nontrivial = P['ob'] > 0.01
     else:
         nontrivial = P['e'] > 0.01 and (not uses_spin or P['ratio'] != 1.0) and (not uses_obl or P['ob'] > 0.01)
     c = Collector(nontrivial=nontrivial)
